@@ -17,6 +17,7 @@ namespace vh
     static std::string lu(Tok& t, std::size_t kind, std::size_t n, std::size_t blocks);
     static std::string jacobianflat(Tok& t, std::size_t ncell, std::size_t ns);
     static std::string luflat(Tok& t, std::size_t n, std::size_t blocks);
+    static std::string lumix(Tok& t, std::size_t kind, std::size_t n, std::size_t cscL, std::size_t cscU, std::size_t blocks);
   };
 
   template<std::size_t L>
